@@ -258,7 +258,8 @@ DEFVALS = {
     'int': [('num', 0), ('num', 5), ('num', -3), ('num', U32 + 1), ('lit', "'ff'H"), ('lit', "'0a'h"), ('lit', "'0101'B"),
             ('lit', "'00'H")],
     'enum': [('id', 'on'), ('id', 'off'), ('id', 'auto-mode'), ('num', 1), ('num', 0)],
-    'octets': [('str', 'abc'), ('str', ''), ('str', 'two words'), ('lit', "'ff00'H"), ('lit', "''H"), ('lit', "'0a0B'h"),
+    'octets': [('str', 'abc'), ('str', ''), ('str', 'two words'), ('str', 'C:\\temp\\new'), ('str', 'two\nlines'),
+               ('str', 'trailing\\'), ('str', "apos'trophe"), ('str', 'caf\u00e9'), ('lit', "'ff00'H"), ('lit', "''H"), ('lit', "'0a0B'h"),
                ('lit', "'0000000100000001'B"), ('lit', "'11111111'B"), ('lit', "''B")],
     'oid': [('id', 'ctxRoot', 'oid'), ('id', 'zeroDotZero', 'oid'), ('id', 'remoteNode', 'oid')],
     'bits': [('bits', ['flagA']), ('bits', ['flagB', 'flag-c']), ('bits', ['flag-c', 'flagA', 'flagB']), ('bits', [])],
